@@ -207,6 +207,11 @@ impl NamespaceActor {
             } else if new_flag > 0 {
                 let mut new_value = v.as_ref().to_owned();
                 new_value.flag = new_flag;
+                if from_flag & NamespaceFromFlags::USER.bits() > 0 {
+                    //what is left is a weak namespace (kept alive by its configs/services only),
+                    //it is named like the one that is rebuilt from them after a restart
+                    new_value.namespace_name = namespace_id.as_str().to_owned();
+                }
                 self.data.insert(namespace_id, Arc::new(new_value));
             } else {
                 //删除
